@@ -724,7 +724,15 @@ def bind_args(callee, args, kws, method=False):
     for p, d in callee.defaults().items():
         if p not in out:
             try:
-                out[p] = ("const", ast.literal_eval(d))
+                v = ast.literal_eval(d)
+                if isinstance(v, list):
+                    out[p] = ("list", tuple(("const", x) for x in v)) if all(isinstance(x, (str, int, float, bool, type(None))) for x in v) else ("unknown", "default")
+                elif isinstance(v, dict):
+                    out[p] = ("dict", ()) if not v else ("unknown", "default:" + ast.unparse(d))
+                elif isinstance(v, (set, tuple)):
+                    out[p] = ("unknown", "default:" + ast.unparse(d))
+                else:
+                    out[p] = ("const", v)
             except Exception:
                 out[p] = ("unknown", "default:" + ast.unparse(d))
     if callee.has_vararg and callee.node.args.vararg.arg not in out:
